@@ -23,6 +23,8 @@ PROBES = [(0, 0, 0), (1, 0, 0), (8, 0, 0), (26, 0, 0), (27, 0, 0), (29, 0, 0), (
           # an element and an isotope that carry the energy-dependent scattering-length tables
           (64, 0, 0), (64, 157, 0)]
 PROBES = list(dict.fromkeys(PROBES))
+from . import state_hist as _sh  # noqa: E402
+_sh.PROBE_KEYS = list(PROBES)
 
 MUTABLE_ATTRS = ["crystal_structure", "neutron", "neutron_activation", "xray", "magnetic_ff"]
 
@@ -169,9 +171,9 @@ class Lab:
     def t_id(self, T):
         return TABLES.index(T)
 
-    def model_lines(self, ev):
+    def model_lines(self, ev, out=None):
         """driver lines for one Python event + what each reply is about:
-           [(line, (kind, key, attr))]"""
+           [(line, (kind, key, attr))].  `out` is the real outcome of the event where it is known."""
         k = ev[0]
         if k in ("read", "has"):
             return [("%s %d %s %d" % (k, self.t_id(ev[1]), self.chain_text[tuple(ev[2])], self.attrs.index(ev[3])),
@@ -186,8 +188,14 @@ class Lab:
             return [("assign %d %s %d %d" % (self.t_id(ev[1]), self.chain_text[tuple(ev[2])], self.attrs.index(ev[3]), ev[4]),
                      ("assign", tuple(ev[2]), ev[3]))]
         if k == "mutate":
-            return [("mutate %d %s %d %d" % (self.t_id(ev[1]), self.chain_text[tuple(ev[2])], self.attrs.index(ev[3]), ev[4]),
-                     ("mutate", tuple(ev[2]), ev[3]))]
+            # one loader may store one object on two atoms of a table (an element without a row of its own
+            # gets its first isotope's record): the real code reports which probe atoms serve the marked
+            # object, and the model, whose objects are per atom, is told to mark those too
+            keys = [tuple(ev[2])]
+            if out is not None and out[0] == "ok" and len(out) > 2:
+                keys += [tuple(x) for x in out[2] if tuple(x) in self.chain_text]
+            return [("mutate %d %s %d %d" % (self.t_id(ev[1]), self.chain_text[kk], self.attrs.index(ev[3]), ev[4]),
+                     ("mutate", kk, ev[3])) for kk in keys]
         if k == "calc":
             arg = tuple(ev[2]) if isinstance(ev[2], list) else ev[2]
             return [("read 0 %s %d" % (self.chain_text[key], self.attrs.index(a)), ("calcread", key, a))
@@ -238,16 +246,17 @@ class Lab:
         return nstates, hs
 
     # ---------------------------------------------------------------- running and comparing
-    def run_model(self, histories):
+    def run_model(self, histories, outs=None):
         """replies of the driver for every history: list (per history) of list (per event) of replies"""
         if not self.model_ok:
             return [None] * len(histories)
         lines, shape = [], []
-        for h in histories:
+        for hi, h in enumerate(histories):
             lines.append("reset")
             per = []
-            for ev in h:
-                ml = self.model_lines(ev)
+            o_h = outs[hi] if outs is not None and isinstance(outs[hi], list) else None
+            for ei, ev in enumerate(h):
+                ml = self.model_lines(ev, o_h[ei] if o_h is not None and ei < len(o_h) else None)
                 per.append(len(ml))
                 lines += [l for l, _ in ml]
             shape.append(per)
@@ -333,16 +342,20 @@ def oracle(lab: Lab, hist, outs):
                 bad.append((i, "%s(%s) raised %s" % (ev[1], ev[2], out[1] if len(out) > 1 else out),
                             dict(kind="init-raises", init=ev[1])))
             elif gi is not None and ev[2] != "public":
+                # (what the user assigned or marked before stays "touched": an init overwrites only the
+                #  atoms it has rows for – an isotope-level assignment survives crystal_structure.init, a
+                #  marked cached Xray object survives xsf.init – so reads through those atoms are not judged)
                 fresh[(ev[2], gi)] = True
-                for (T, nk, a) in list(touched):
-                    if T == ev[2] and group_of(lab, a) == gi:
-                        touched.discard((T, nk, a))
         elif k == "import":
             if out != ["ok"]:
                 bad.append((i, "import %s raised %r" % (ev[1], out), dict(kind="import-raises")))
         elif k in ("assign", "mutate"):
             for _, nk in nodes_of(tuple(ev[2])):
                 touched.add((ev[1], nk, ev[3]))
+            if k == "mutate" and out[0] == "ok" and len(out) > 2:
+                for other in out[2]:     # other atoms of the table that serve the very same (now marked) object
+                    for _, nk in nodes_of(tuple(other)):
+                        touched.add((ev[1], nk, ev[3]))
             if k == "mutate" and out[0] == "ok" and len(out) > 1 and out[1] == "class":
                 classmut.add(ev[3])
         elif k in ("formula", "pickle"):
@@ -397,7 +410,7 @@ def compare(lab: Lab, hist, outs, replies):
     if replies is None:
         return None
     for i, (ev, out, reps) in enumerate(zip(hist, outs, replies)):
-        ml = lab.model_lines(ev)
+        ml = lab.model_lines(ev, out)
         k = ev[0]
         if k in ("newtable", "formula", "pickle", "ids"):
             continue
